@@ -486,7 +486,25 @@ package fdo
 //@   sweep bounds,panic,make
 //@   requires @owner OwnerProven(u(sess))
 //@   requires @device DeviceProven(u(sess))
+//@   requires @keyinv initInfo.r != nil ==> hdr(len(initInfo.key)) + len(initInfo.key) <= len(initInfo.rkey)
 //@   callsites sendDone 2
 //@   callassert sendDone#1: @done done
 //@   callassert sendDone#2: @done done
 //@   callassert sendDone#*: @args u(arg2) == u(proveDvNonce) && u(arg3) == u(setupDvNonce) && u(arg4) == u(sess)
+
+// ---- device side batching of service info into one message (C15): every chunk read
+// fits what is left of the MTU budget (no wrap of the uint16 budget), the budget passed
+// to the reader is what is left, "more" is announced only when a chunk did not fit after
+// at least one was taken; the reader's key invariant is kept across the batch
+//@ func fdo.exchangeServiceInfoRound
+//@   props C15 C16 C10(sweep)
+//@   sweep bounds,panic,make,nilmem
+//@   requires @keyinv r.r != nil ==> hdr(len(r.key)) + len(r.key) <= len(r.rkey)
+//@   invariant loop#1: maxRead <= mtu
+//@   invariant loop#1: !msg.IsMoreServiceInfo
+//@   invariant loop#1: r.r != nil ==> hdr(len(r.key)) + len(r.key) <= len(r.rkey)
+//@   invariant loop#2: r.r != nil ==> hdr(len(r.key)) + len(r.key) <= len(r.rkey)
+//@   callsites ReadChunk 1
+//@   callassert ReadChunk#1: @budget arg1 == maxRead
+//@   callassert sendDeviceServiceInfo#1: @more msg.IsMoreServiceInfo ==> maxRead != mtu
+//@   callassert exchangeServiceInfoRound#1: @same arg2 == mtu && u(arg3) == u(r) && u(arg4) == u(w) && u(arg5) == u(sess)
